@@ -381,7 +381,7 @@ func c06ReadScalar(c *Ctx, path string, d *TV, n c06Num, cls string) {
 }
 
 func genC06(c *Ctx) {
-	c.Rule = "finite block, enumerated completely: every Go numeric kind (int, int8..int64, uint, uint8..uint64, float64, decimal.Decimal) and the named type over each integer kind and float64, named integer / float types that have a String method, float32 plain and named (value = the widened float64, as for float64), held directly or behind one pointer; for every integer kind the values min, max, 0, 1, -1, min+1, max-1 (for uint/uint64 also MaxInt64, MaxInt64+1, MaxInt64+2, MaxUint64-1) and random points uniform in the type's range; for float64 a fixed list (0, -0, +-1, +-MaxFloat64, +-smallest denormal, smallest normal, short fractions, 1/3, whole numbers around 2^53/2^63/2^64, 1e21..1e300, 1e-7..5e-300, 17-digit values) and random bit patterns / short decimals / whole numbers / full mantissas; for decimal.Decimal fixed coefficients and exponents (zero with exponent, positive exponents, 30..38-digit coefficients, values around the int64/uint64 bounds) and random ones; each number is read at the root (`$`), as a map value and as a struct field (`$.k`, `$.K`), as a function receiver (`.Add(0)`, `.Equal(<literal>)` when the value has a literal of at most 15 significant digits), as an element of []any, typed slices, [n]any and typed arrays under a key and at the root (First, Last, Index(i) for every i), and collected by stepping a key across []any of maps, []any of structs, []any of pointers to structs and typed slices of structs (`$.xs.k`, then First/Last/Index on the collection). Oracles: value = the source number as a fraction computed from the source text/bits (float64: the shortest decimal that reads back, strconv 'e' -1) compared with the result's value; type = the exact form is d:... (a decimal.Decimal), for a collection a non-nil []any of d:.... Booleans and non-numeral strings (plain, named, behind a pointer) in the same positions must come back exactly as they went in at a bare path and with the same content through First/Last/Index. Then random mixed documents: heterogeneous []any of numbers of all carriers, strings and bools. Numeral strings are a separate out-of-domain class. distinct = distinct (query skeleton, data shape to depth 2, outcome class)"
+	c.Rule = "finite block, enumerated completely: every Go numeric kind (int, int8..int64, uint, uint8..uint64, float64, decimal.Decimal) and the named type over each integer kind and float64, named integer / float types that have a String method, float32 plain and named (value = the widened float64, as for float64), a named type over decimal.Decimal, held directly or behind one pointer; for every integer kind the values min, max, 0, 1, -1, min+1, max-1 (for uint/uint64 also MaxInt64, MaxInt64+1, MaxInt64+2, MaxUint64-1) and random points uniform in the type's range; for float64 a fixed list (0, -0, +-1, +-MaxFloat64, +-smallest denormal, smallest normal, short fractions, 1/3, whole numbers around 2^53/2^63/2^64, 1e21..1e300, 1e-7..5e-300, 17-digit values) and random bit patterns / short decimals / whole numbers / full mantissas; for decimal.Decimal fixed coefficients and exponents (zero with exponent, positive exponents, 30..38-digit coefficients, values around the int64/uint64 bounds) and random ones; each number is read at the root (`$`), as a map value and as a struct field (`$.k`, `$.K`), as a function receiver (`.Add(0)`, `.Equal(<literal>)` when the value has a literal of at most 15 significant digits), as an element of []any, typed slices, [n]any and typed arrays under a key and at the root (First, Last, Index(i) for every i), and collected by stepping a key across []any of maps, []any of structs, []any of pointers to structs and typed slices of structs (`$.xs.k`, then First/Last/Index on the collection). Oracles: value = the source number as a fraction computed from the source text/bits (float64: the shortest decimal that reads back, strconv 'e' -1) compared with the result's value; type = the exact form is d:... (a decimal.Decimal), for a collection a non-nil []any of d:.... Booleans and non-numeral strings (plain, named, behind a pointer) in the same positions must come back exactly as they went in at a bare path and with the same content through First/Last/Index. Then random mixed documents: heterogeneous []any of numbers of all carriers, strings and bools. Numeral strings are a separate out-of-domain class. distinct = distinct (query skeleton, data shape to depth 2, outcome class)"
 	nRandInt := c.scale(4, 40)
 	nRandF := c.scale(40, 800)
 	nRandD := c.scale(30, 600)
@@ -429,6 +429,19 @@ func genC06(c *Ctx) {
 			}
 		}
 		groups = append(groups, ratios, f32s, nf32s)
+		// a named type over decimal.Decimal holds the same number
+		var ndecs []c06Num
+		for i, n := range c06DecValues(c, 6) {
+			if i%3 == 2 {
+				continue
+			}
+			m := n
+			t := *n.tv
+			t.N = 1
+			m.tv, m.kind, m.fam = &t, "named-decimal", "named-decimal"
+			ndecs = append(ndecs, m)
+		}
+		groups = append(groups, ndecs)
 	}
 	var all []c06Num
 	for _, g := range groups {
